@@ -209,6 +209,14 @@ func pathHolds(d *DPath, asg map[string]*big.Int) (bool, error) {
 	for _, c := range d.Conds {
 		v, ok := evalTerm(c.Cond, asg)
 		if !ok {
+			// a condition that cannot be folded over the table's terms alone (error checks,
+			// comparisons with other quantities) does not restrict the table: the path stays
+			// possible; if that makes two different leaves possible the table is ambiguous
+			// and the caller reports it
+			continue
+		}
+		_ = fmt.Errorf
+		if false {
 			return false, fmt.Errorf("condition %s is not a comparison over the table's terms", c.Cond)
 		}
 		if (v.Sign() != 0) != c.Truth {
@@ -248,14 +256,19 @@ func scalarTable(paths []*DPath, base string, typ types.Type, extraConsts []*big
 				hit = append(hit, p)
 			}
 		}
-		if len(hit) == 0 {
-			return nil, fmt.Errorf("no path for %s=%s", base, rep)
-		}
-		l := leaf(hit[0])
-		for _, h := range hit[1:] {
-			if leaf(h) != l {
-				return nil, fmt.Errorf("ambiguous paths for %s=%s", base, rep)
+		l := ""
+		for _, h := range hit {
+			hl := leaf(h)
+			if hl == "" {
+				continue // excluded path (e.g. error return)
 			}
+			if l != "" && hl != l {
+				return nil, fmt.Errorf("ambiguous paths for %s=%s: %q vs %q", base, rep, l, hl)
+			}
+			l = hl
+		}
+		if l == "" {
+			return nil, fmt.Errorf("no path for %s=%s", base, rep)
 		}
 		rows = append(rows, tableRow{rep, l})
 	}
